@@ -22,7 +22,17 @@ theorem exLin_frag : LinFrag (fun _ : Ext K => "3") (exLin : LinModel (Ext K)) :
   have k2 : isKeyword "y" = false := by decide
   have k3 : isKeyword "cap" = false := by decide
   have k4 : isKeyword "" = false := by decide
-  refine ⟨?_, ?_, fun _ _ _ _ => intOk3, fun _ _ => ⟨intOk3, intOk3⟩, fun _ _ => intOk3, ⟨intOk3, intOk3⟩, ?_⟩
+  refine ⟨?_, ?_, fun _ _ _ _ => intOk3, fun _ _ => ⟨intOk3, intOk3⟩, fun _ _ => intOk3, ⟨intOk3, intOk3⟩, ?_, ?_, ?_, ?_⟩
+  rotate_left 3
+  · intro v hv; simp [exLin] at hv; rcases hv with rfl | rfl <;> decide
+  · intro r hr; simp [exLin] at hr
+    rcases hr with rfl | rfl
+    · show lowerWord "cap" ≠ "for"; decide
+    · show lowerWord "" ≠ "for"; decide
+  · intro d hd; simp [exLin] at hd
+    rcases hd with rfl | rfl
+    · show lowerWord "x" ≠ "for"; decide
+    · show lowerWord "y" ≠ "for"; decide
   · intro v hv; simp [exLin] at hv; rcases hv with rfl | rfl <;> assumption
   · intro r hr; simp [exLin] at hr; rcases hr with rfl | rfl <;> assumption
   · intro d hd; simp [exLin] at hd
